@@ -454,3 +454,18 @@ Fixpoint no_nl (s : string) : bool :=
   | EmptyString => true
   | String a r => negb (Ascii.eqb a nl) && no_nl r
   end.
+
+(* ------------------------------------------------------------------------------------------ *)
+(* Part I: per-request state of the web handlers (internal/driver/webui.go makeReport, errorCatcher):
+   the messages a page shows in its errors box are those printed while the report of THAT request was
+   generated -- a function of the request alone.  For the sample filters (driver_focus.go:45-60) a filter
+   whose expression matches nothing reports "<Name> expression matched no samples", in this order. *)
+Definition filter_names : list string :=
+  ["Focus"; "Ignore"; "Hide"; "Show"; "ShowFrom"; "TagFocus"; "TagIgnore"; "TagShow"].
+Fixpoint web_errors_from (bit : Z) (names : list string) (mask : Z) : list string :=
+  match names with
+  | [] => []
+  | n :: r => (if Z.testbit mask bit then [(n ++ " expression matched no samples")%string] else [])
+              ++ web_errors_from (bit + 1) r mask
+  end.
+Definition web_errors (mask : Z) : list string := web_errors_from 0 filter_names mask.
